@@ -109,9 +109,19 @@ impl<T: Qcow2IoOps> Qcow2Dev<T> {
         {
             Some(to_kill) => {
                 log::warn!("add_l2_slice: cache eviction, slices {}", to_kill.len());
-                // figure exact dependency on refcount cache & reftable entries
-                self.flush_refcount().await?;
-                self.flush_cache_entries(to_kill).await
+                let res = async {
+                    // figure exact dependency on refcount cache & reftable entries
+                    self.flush_refcount().await?;
+                    self.flush_cache_entries(to_kill.clone()).await
+                }
+                .await;
+
+                if res.is_err() {
+                    // the victims aren't written back, and they are lost unless
+                    // they are cached again
+                    self.l2cache.put_back(to_kill);
+                }
+                res
             }
             _ => Ok(()),
         }
